@@ -6,6 +6,7 @@ Emits coq/Gen_bbflush.v:
   bb_status_j_reset_inside : bool   shape of the loop "Fill up the status for nonblocking request"
                                     in ncbbio_log_flush_core (true = `j = 0;` inside the loop body,
                                     the defect F10; false = reset once before the loop)
+  bb_read_at_dataread : bool        both reads of the data log into the flush buffer target databuffer + dataread
   bb_trig_get / getn / wait / sync / flush / redef : bool
                                     the API entry point calls ncbbio_log_flush(ncbbp) before it
                                     forwards to ncmpio
@@ -59,6 +60,16 @@ if m and 'putlist.reqs[ip->reqid].status' in m.group(2):
         notes.append('status loop body not recognised: ' + lb[:200])
 else:
     notes.append('status loop not found')
+
+# the two reads of the data log into the flush buffer (before skipping a cancelled entry, and at the end of the batch
+# scan) must append at the current fill level: databuffer + dataread
+reads = re.findall(r'ncbbio_sharedfile_read\(\s*ncbbp->datalog_fd\s*,\s*([^,]+?)\s*,\s*([^)]+?)\s*\)', core)
+read_ok = len(reads) == 2 and all(re.sub(r'\s+', '', a) == 'databuffer+dataread' and re.sub(r'\s+', '', b) == 'databufferused-dataread' for a, b in reads) \
+    and re.sub(r'\s+', '', core).count('dataread=databufferused;') == 2 \
+    and re.search(r'ncbbio_sharedfile_seek\(ncbbp->datalog_fd,\s*ncbbp->entrydatasize\.values\[ub\],\s*SEEK_CUR\)', core) is not None \
+    and 'databufferoff += entryp->data_len;' in core and re.search(r'databufferoff\s*=\s*databuffer\s*;', core) is not None
+if not read_ok:
+    notes.append('data-log reads of the flush buffer not recognised: %s' % (reads,))
 
 var = text('ncbbio_var.c'); fil = text('ncbbio_file.c'); log = text('ncbbio_log.c')
 
@@ -126,6 +137,7 @@ o = ['(* GENERATED by tools/tr_bbflush.py from the sources as built — do not e
 for n in notes:
     o.append('(* NOT RECOGNISED: %s *)' % n.replace('*)', '* )'))
 o.append('Definition bb_status_j_reset_inside : bool := %s.' % b(inside))
+o.append('Definition bb_read_at_dataread : bool := %s.' % b(read_ok))
 for k in ('get', 'getn', 'wait', 'sync', 'flush', 'redef'):
     o.append('Definition bb_trig_%s : bool := %s.' % (k, b(T[k])))
 o.append('Definition bb_trig_close : bool := %s.' % b(close_ok))
